@@ -324,6 +324,13 @@ def run(tier, seed, rep):
     for n, res in pmap(job_busy, [(c,) for c in busy_cfgs]):
         nbusy += n
         rep.add_many(res)
+    from ..configs import firmware_configs
+    fw = [(c, 'udp') for c in firmware_configs()]
+    for n, nr, res, sts in pmap(job, [fw[i::16] for i in range(16)]):
+        total_fw = n
+        for v in res:
+            v['key'] += '/firmware-version-sweep' if ('C14', v['key']) not in _known() else ''
+        rep.add_many(res)
     nsingle = 0
     for n, res in pmap(job_single_reads, [(c,) for c in busy_cfgs] + [(dict(c, refuse_mode='cover'),) for c in busy_cfgs if c['refused']]):
         nsingle += n
